@@ -84,6 +84,10 @@ CLAIMED = {
             "The scalar coercion table (built-in names, JSON predicates consulted per name, bounds) and the structural shape of null/list/input-object/variable-map handling, extracted from the type-checked match arms and if-chains.",
             "Clause-level: numeric edge values and serde_json_bytes' predicates are not decided.",
             "decision-table extraction over HIR match arms and if-chains", False),
+    "C16": ("other",
+            "validate_schema changes the schema only through the prune (retain) and restore (insert) of built-in scalar definitions on schema.types: the 8-row decision table of the prune closure, the 3-row table of record_type_ref, coverage of all five containers of type references by a loop that records every element's inner named type on every path, the restore loop after the prune on every path, and no other mutable borrow or non-benign interior mutability of the schema / executable document.",
+            "Necessary conditions of idempotence (who writes, what the bookkeeping decides, that all references are recorded); equality of the schema before and after re-validation is not decided.",
+            "decision tables from MIR path enumeration, loop-relative must-pass-through, may-derive slices, who-writes and type facts", False),
 }
 
 NOT_APPLICABLE = {
